@@ -136,7 +136,7 @@ func c04Hist(ctx *core.Ctx, c c04Case) {
 		fail := func(sig, msg string) {
 			cc := c
 			cc.H = h
-			ctx.Violate(sig, msg+fmt.Sprintf(" [mode=%s maxrcpt=%d disc=%s hist=%s]", h.Mode, h.MaxRcpt, disc, strings.Join(h.Hist, ",")), cc,
+			ctx.Violate(sig, msg+fmt.Sprintf(" [mode=%s maxrcpt=%d maxbytes=%d disc=%s hist=%s]", h.Mode, h.MaxRcpt, h.MaxBytes, disc, strings.Join(h.Hist, ",")), cc,
 				append(append(witness(run.Log, run.All), "=== lock-step run of the same history ==="), witness(lock.Log, lock.All)...))
 		}
 		for _, r := range run.All {
